@@ -276,7 +276,7 @@ func randValue(r *rng, code int, nullable bool, allowUntyped bool) any {
 	return ptrTo(v)
 }
 
-var dictIDs = []string{"", "1", "2", "10", "abc", "a b", "é", "x\"y", "<1>", "😀", "0", "id"}
+var dictIDs = []string{"", "1", "2", "10", "abc", "a b", "é", "x\"y", "<1>", "😀", "0", "id", "a\x01b\x7f", "t\tn\nq"}
 
 func randIDs(r *rng) []string {
 	n := pick(r, []int{0, 0, 1, 2, 3, 5, 12, 20})
